@@ -30,8 +30,12 @@ func c08Variant(i, v int) string {
 		return fmt.Sprintf("G%d = { v = %d }\nfunction gf%d(a, b) return a end\n", i, i, i)
 	case 4: // uses the global of another file (undefined when that file does not define it)
 		return fmt.Sprintf("local x%d = G%d.v\nprint(x%d, gf%d(1, 2, 3))\n", i, other, i, other)
-	case 5: // requires another file
-		return fmt.Sprintf("local m%d = require(\"f%d\")\nprint(m%d)\n", i, other, i)
+	case 5: // requires another file (the third file lives in a sub-directory and is required by its dotted path)
+		mod := fmt.Sprintf("f%d", other)
+		if other == 2 {
+			mod = "sub.f2"
+		}
+		return fmt.Sprintf("local m%d = require(\"%s\")\nprint(m%d)\n", i, mod, i)
 	default: // another syntax error variant
 		return fmt.Sprintf("local function q%d(\nprint(1)\n", i)
 	}
@@ -79,7 +83,7 @@ func runC08(res *lib.Result, tier string, seed int64, args []string) error {
 	}
 	defer drv.Close()
 	root := lib.NewRng(uint64(seed))
-	names := []string{"f0.lua", "f1.lua", "f2.lua"}
+	names := []string{"f0.lua", "f1.lua", "sub/f2.lua"}
 	for hi := 0; hi < nHist; hi++ {
 		r := root.Fork(uint64(hi))
 		dir := lib.ScratchDir(fmt.Sprintf("c08h%d", hi))
@@ -274,12 +278,14 @@ func runC08(res *lib.Result, tier string, seed int64, args []string) error {
 				if _, exists := disk[n]; !exists {
 					v := r.Intn(6)
 					disk[n] = v
+					os.MkdirAll(filepath.Dir(filepath.Join(dir, n)), 0o755)
 					os.WriteFile(filepath.Join(dir, n), []byte(c08Variant(i, v)), 0o644)
 					typ = 1
 					history = append(history, fmt.Sprintf("create %s (variant %d) + didChangeWatchedFiles", n, v))
 				} else if r.Chance(1, 2) {
 					v := r.Intn(6)
 					disk[n] = v
+					os.MkdirAll(filepath.Dir(filepath.Join(dir, n)), 0o755)
 					os.WriteFile(filepath.Join(dir, n), []byte(c08Variant(i, v)), 0o644)
 					typ = 2
 					history = append(history, fmt.Sprintf("rewrite %s (variant %d) + didChangeWatchedFiles", n, v))
